@@ -8,8 +8,9 @@ From Sylt Require Import Back.IR Back.Emit Back.ScopeProofs.
 From Sylt Require Import Pres.EmitAst Pres.EmitRel Pres.Names Pres.LuaFuel Pres.LuaEv Pres.Preamble.
 From Sylt Require Import Pres.Frag.
 From Sylt Require Import Pres.SimDefs Pres.SimOps Pres.SimVals.
-From Sylt Require Import Pres.SimExpr Pres.LowerShape Pres.SimSteps Pres.SimExprProofs.
+From Sylt Require Import Pres.SimExpr Pres.LowerShape Pres.SimSteps Pres.SimExprProofs Pres.SimEcall.
 From Sylt Require Import Pres.LuaLoop.
+From Sylt Require Import Pres.SimFun.
 From Sylt Require Import Pres.NoExit Pres.SimStmt Pres.RunEq.
 From Sylt Require Import Lua.LuaAst Lua.LuaMap Lua.LuaNum Lua.LuaProofs Lua.LuaCore.
 Import ListNotations.
@@ -34,25 +35,6 @@ Variable bound : N.
 Variable u : counts.
 
 Notation ctx_ok := (ctx_ok bound).
-
-(* the Lua state after `local function V<fv>(ps) b end` *)
-Definition lua_def_state (stL : state) (E1 : env) (ps : list N) (b : block) : state :=
-  set_cell (snd (alloc_closure (snd (alloc_cell stL VNil)) (mkClosure E1 (map fmt_var ps) b))) (s_ncell stL) (VFun (s_nclo stL)).
-
-Lemma lua_def_old stL E1 ps b p : (p < s_ncell stL)%positive -> get_cell (lua_def_state stL E1 ps b) p = get_cell stL p.
-Proof.
-  intros Hp. unfold lua_def_state. rewrite get_cell_set_other by lia.
-  change (get_cell (snd (alloc_cell stL VNil)) p = get_cell stL p). apply get_cell_alloc_old. exact Hp.
-Qed.
-
-Lemma linv_lua_def stL E1 ps b : linv stL -> linv (lua_def_state stL E1 ps b).
-Proof.
-  intros Hli. apply linv_set_cell. destruct Hli as [Hd Hg [Hc] Hn]. constructor.
-  - exact Hd.
-  - exact Hg.
-  - constructor. unfold alloc_closure, alloc_cell. cbn [snd s_clos s_nclo]. rewrite pget_pset_other; [exact Hc | lia].
-  - unfold alloc_closure, alloc_cell. cbn [snd s_nclo]. lia.
-Qed.
 
 (* `local function V<fv>(ps) <body> end`: the closure joins the world, its name the callable functions; the
    description d records its code, its cells and its closure environments *)
@@ -985,7 +967,7 @@ Proof.
   - split; [apply P_eval_zero|]. split; [apply P_exec_zero|]. split; [apply P_blk_zero|].
     split; [apply P_bv_zero|]. split; [apply P_fb_zero | apply P_apply_zero].
   - destruct (IH fl W) as (IHe & IHs & IHss & IHb & IHf & IHa).
-    split; [apply P_eval_succ; assumption|]. split; [apply P_exec_succ; assumption|].
+    split; [apply P_eval_succ; [assumption | assumption | apply P_ecall_succ; intros W'; apply (IH fl W')]|]. split; [apply P_exec_succ; assumption|].
     split; [apply P_blk_succ; intros fl' W'; apply (IH fl' W')|].
     split; [apply P_bv_succ; [intros fl' W'; apply (IH fl' W') | assumption]|].
     split; [apply P_fb_succ; intros fl' W'; apply (IH fl' W')|].
